@@ -12,6 +12,7 @@ LastWrap == {0, MaxId - 1}
 LastZero == {0}
 TmoGen == {0, -1, 1}
 TmoZero == {0, -1, 2}
+TmoHuge == {0, 2, -2}          \* none, two ticks, the largest Duration there is
 View == <<alloc, queues, maps, chans, callerv, envv, now>>     \* history variables hidden
 EntOnly == {"ent"}
 AllItems == {"ent", "ref", "int"}
